@@ -23,7 +23,7 @@ def describe(tier):
                 % DEPTH[tier],
         'bounds': 'alphabet 5, BFS to fixpoint (cap %d states), all 5^k sequences k<=%d' % (STATE_CAP, DEPTH[tier]),
         'assumptions': ['hidden state can only live in the EDB object, the token objects or the scheme/config object (canon covers these three)'],
-        'must_be_nonzero': ['bfs-fixpoint', 'sequences', 'inputs-checked', 'inputs-checked-bytearray-ids', 'refused-builds-checked', 'inputs-checked-tuple-lists', 'default-config-checked', 'config-variants-checked', 'second-index'],
+        'must_be_nonzero': ['bfs-fixpoint', 'sequences', 'inputs-checked', 'inputs-checked-bytearray-ids', 'refused-builds-checked', 'inputs-checked-tuple-lists', 'inputs-checked-dup-in-list', 'default-config-checked', 'config-variants-checked', 'second-index'],
     }
 
 
@@ -223,6 +223,8 @@ def run_inputs(r, seed, p, tier):
     # a build that is REFUSED part-way (the last identifier of the last keyword is a str, not bytes) is still "building an index":
     # the caller's database, as it was handed in, is what the caller gets back
     variants += [(q, 'refused') for q in profs if 2 <= sum(q) <= (6 if tier == 'quick' else 9)]
+    # the same identifier twice under one keyword (a document listed twice): still listed twice in the caller's database
+    variants += [(q, 'dup-in-list') for q in profs if 2 <= sum(q) <= (5 if tier == 'quick' else 7)]
     # posting lists handed over as tuples (any sequence is accepted): they are still the caller's tuples afterwards
     variants += [(q, 'tuple-lists') for q in profs if sum(q) <= (5 if tier == 'quick' else 7)]
     for prof, idtype in variants:
@@ -235,6 +237,10 @@ def run_inputs(r, seed, p, tier):
             db = {w: [bytearray(i) for i in v] for w, v in db.items()}
         if idtype == 'tuple-lists':
             db = {w: tuple(v) for w, v in db.items()}
+        if idtype == 'dup-in-list':
+            db = {w: (list(v) + [v[0]] + list(v[1:2]) if i == 0 else list(v)) for i, (w, v) in enumerate(db.items())}
+            if sse.finalize_cfg(name, cfg, db) != cfg1 or not sse.valid_profile(name, cfg, [len(v) for v in db.values()]):
+                continue
         det.seed_case(seed, PROPERTY, 'inputs', name, label, tuple(prof))
         if idtype == 'refused':
             lastw = list(db)[-1]
